@@ -148,6 +148,18 @@ CHECKS = [
      "note": "the argmin proof unrolls the candidate list (length fixed per case); selection_criteria's formulas and the ellipsoid filter itself are not under contract",
      "not_covered": ["the published formula of each selection criterion", "that the ellipsoid filter honours custom weekday maps (it hard-codes Mon-Fri)"],
      },
+    {"id": "C09", "level": "proof", "modules": ["contracts.C09_daymean"], "bounded": ["bounded.C09_daymean"],
+     "technique": "deductive verification of the half rule on a row-wise model (pyvc, z3) + bounded per-meter-day reference through the real data classes",
+     "text": "Proof: for one arbitrary day of the aggregated frame, _compute_temperature_features (daily and billing classes, real source) blanks the day's "
+             "temperature exactly when half or fewer of its readings are present (hourly feeds: not_null / (not_null + null) <= 1/2; sub-hourly feeds: "
+             "coverage <= 1/2), otherwise hands the aggregated mean on unchanged -- in particular NOT divided by the coverage -- names the result "
+             "'temperature' and passes the present / absent counts on untouched. Bounded (labelled so): real Daily / Billing data classes on daily "
+             "meters read at 00:00 or 06:00 with hourly and half-hourly feeds in other zones, DST spans, gaps at and around one half of a day, "
+             "against a per-meter-day reference of means and counts.",
+     "note": "compute_temperature_features (merge_asof group-by) and as_freq enter the proof as opaque frames: that their means / counts are the per-meter-day "
+             "ones is decided by the bounded part only. Known findings C09-subhourly-counts-are-flags, C09-subhourly-offhour-meter, C09-billing-23h-half. "
+             "A day with no present reading carries NaN/NaN counts; accepted as 'no counts' (it fails the coverage test either way).",
+     "not_covered": ["15-minute feeds", "feeds whose offset is not a whole number of sampling intervals (outside the quantifier)"]},
     {"id": "C10", "level": "proof", "modules": ["contracts.C10_sufficiency"], "bounded": ["flow.C10_tables", "bounded.C10_boundary"],
      "technique": "deductive verification of the threshold checks (pyvc, integer VCs, z3) + call-set / writer-set table obligations from the AST + bounded end-to-end verdicts at the thresholds",
      "text": "Proof: each day-count check of SufficiencyCriteria appends exactly its own disqualification iff its published criterion (span outside "
